@@ -156,8 +156,9 @@ namespace Tap1
 @[simp] theorem ct_scanHandler (c : Cfg) (i : In) (s : St) : (scanHandler c i s).1.curT = s.curT := by
   unfold scanHandler; repeat' split
   all_goals simp [St.raise]
-@[simp] theorem ct_propagatePrep (s : St) : (propagatePrep s).curT = s.curT := by
-  unfold propagatePrep propagateReset; split <;> simp
+@[simp] theorem ct_propagatePrep (c : Cfg) (s : St) : (propagatePrep c s).curT = s.curT := by
+  unfold propagatePrep propagateReset; repeat' split
+  all_goals simp [St.raise]
 @[simp] theorem ct_propagateFirstScan (s : St) : (propagateFirstScan s).curT = s.curT := by
   simp [propagateFirstScan]
 @[simp] theorem ct_propagate (c : Cfg) (i : In) (s : St) : (propagate c i s).curT = s.curT := by
@@ -231,8 +232,9 @@ theorem ct_returnHandler (c : Cfg) (h : Hist) (s : St) : (returnHandler c h s).c
 @[simp] theorem hs_scanHandler (c : Cfg) (i : In) (s : St) : (scanHandler c i s).1.hist = s.hist := by
   unfold scanHandler; repeat' split
   all_goals simp [St.raise]
-@[simp] theorem hs_propagatePrep (s : St) : (propagatePrep s).hist = s.hist := by
-  unfold propagatePrep propagateReset; split <;> simp
+@[simp] theorem hs_propagatePrep (c : Cfg) (s : St) : (propagatePrep c s).hist = s.hist := by
+  unfold propagatePrep propagateReset; repeat' split
+  all_goals simp [St.raise]
 @[simp] theorem hs_propagateFirstScan (s : St) : (propagateFirstScan s).hist = s.hist := by
   simp [propagateFirstScan]
 @[simp] theorem hs_propagate (c : Cfg) (i : In) (s : St) : (propagate c i s).hist = s.hist := by
@@ -306,8 +308,9 @@ theorem hs_returnHandler (c : Cfg) (h : Hist) (s : St) : (returnHandler c h s).h
 @[simp] theorem dd_scanHandler (c : Cfg) (i : In) (s : St) : (scanHandler c i s).1.dead = s.dead := by
   unfold scanHandler; repeat' split
   all_goals simp [St.raise]
-@[simp] theorem dd_propagatePrep (s : St) : (propagatePrep s).dead = s.dead := by
-  unfold propagatePrep propagateReset; split <;> simp
+@[simp] theorem dd_propagatePrep (c : Cfg) (s : St) : (propagatePrep c s).dead = s.dead := by
+  unfold propagatePrep propagateReset; repeat' split
+  all_goals simp [St.raise]
 @[simp] theorem dd_propagateFirstScan (s : St) : (propagateFirstScan s).dead = s.dead := by
   simp [propagateFirstScan]
 @[simp] theorem dd_propagate (c : Cfg) (i : In) (s : St) : (propagate c i s).dead = s.dead := by
@@ -414,7 +417,7 @@ structure WF (c : Cfg) (s : St) (t : Int) : Prop where
   curT_le : s.curT ≤ t
   curT_lt : s.curT < t ∨ s.cur = .notStarted
 
-theorem wf_init (c : Cfg) (d0 : Int) (s0 : St) (h0 : init c d0 = some s0) : WF c s0 0 := by
+theorem wf_init (c : Cfg) (d0 : Int) (k1 k2 : Nat) (s0 : St) (h0 : init c d0 k1 k2 = some s0) : WF c s0 0 := by
   unfold init at h0
   split at h0
   · rename_i hv
@@ -621,7 +624,7 @@ sequence of schedule / trial / scan draws and simulator responses, every run len
    chain ended; and a live agent that finds the chain SUCCEEDED or FAILED never acts, waits for its next execution
    slot, and in that slot stops for good (repeat off: concluded, stage kept) or restarts (repeat on: NOT_STARTED or
    straight into DOWNLOAD, never concluded) — failure branches included (`EndTick`). -/
-theorem C19_tap1_kill_chain_run (c : Cfg) (d0 : Int) (s0 : St) (ins : List In) (h0 : init c d0 = some s0) :
+theorem C19_tap1_kill_chain_run (c : Cfg) (d0 : Int) (k1 k2 : Nat) (s0 : St) (ins : List In) (h0 : init c d0 k1 k2 = some s0) :
     Linked (Allowed c) s0.cur (run c s0 0 ins) ∧
     (c.repeatKillChain = false → ((s0 :: run c s0 0 ins).map (fun s => rank s.cur)).Pairwise (· ≤ ·)) ∧
     (∀ (pre : List In) (i : In) (post : List In), ins = pre ++ i :: post →
@@ -629,12 +632,12 @@ theorem C19_tap1_kill_chain_run (c : Cfg) (d0 : Int) (s0 : St) (ins : List In) (
         c.repeatKillChain = false ∧ (after c s0 0 pre).cur.terminal = true) ∧
       ((after c s0 0 pre).cur.terminal = true → (after c s0 0 pre).dead = false →
         EndTick c (after c s0 0 pre) pre.length i)) := by
-  have hL := (C19_tap1_stage_monotone c d0 s0 ins h0).1
+  have hL := (C19_tap1_stage_monotone c d0 k1 k2 s0 ins h0).1
   refine ⟨hL, ?_, ?_⟩
   · intro hrep
     exact pairwise_of_chainLe _ (linked_chainLe c hrep _ _ hL)
   · intro pre i post _
-    have hw := wf_after c pre s0 0 (wf_init c d0 s0 h0)
+    have hw := wf_after c pre s0 0 (wf_init c d0 k1 k2 s0 h0)
     rw [Int.zero_add] at hw
     refine ⟨?_, fun hterm hd => end_tick c _ _ i hw hterm hd⟩
     intro hc
@@ -645,7 +648,7 @@ theorem C19_tap1_kill_chain_run (c : Cfg) (d0 : Int) (s0 : St) (ins : List In) (
 execution slot finds the chain FAILED and restarts it straight into DOWNLOAD. -/
 example :
     let c : Cfg := { exCfg with repeatKillChain := true, repeatStages := false, pPropagate := ⟨0, 1⟩ }
-    ∃ s0, init c 0 = some s0 ∧
+    ∃ s0, init c 0 0 0 = some s0 ∧
       (run c s0 0 (List.replicate 9 exIn)).map (·.cur)
         = [.notStarted, .download, .download, .install, .activate, .propagate, .failed, .download, .download] := by
   refine ⟨_, rfl, ?_⟩; decide
@@ -681,7 +684,7 @@ theorem wait_until_slot (c : Cfg) : ∀ (w : List In) (s : St) (t : Int), WF c s
     have e : t + ((is.length + 1 : Nat) : Int) = t + 1 + (is.length : Int) := by omega
     rw [e]; exact this
 
-theorem C19_tap1_ends_at_first_slot (c : Cfg) (d0 : Int) (s0 : St) (h0 : init c d0 = some s0) (pre w : List In) (i : In)
+theorem C19_tap1_ends_at_first_slot (c : Cfg) (d0 : Int) (k1 k2 : Nat) (s0 : St) (h0 : init c d0 k1 k2 = some s0) (pre w : List In) (i : In)
     (hterm : (after c s0 0 pre).cur.terminal = true) (hd : (after c s0 0 pre).dead = false)
     (hc : (after c s0 0 pre).concluded = false)
     (hlen : (w.length : Int) = max (pre.length : Int) (after c s0 0 pre).nextExec - pre.length) :
@@ -691,7 +694,7 @@ theorem C19_tap1_ends_at_first_slot (c : Cfg) (d0 : Int) (s0 : St) (h0 : init c 
     (c.repeatKillChain = true →
       (after c s0 0 (pre ++ w ++ [i])).concluded = false ∧
       ((after c s0 0 (pre ++ w ++ [i])).cur = .notStarted ∨ (after c s0 0 (pre ++ w ++ [i])).cur = .download)) := by
-  have hw := wf_after c pre s0 0 (wf_init c d0 s0 h0)
+  have hw := wf_after c pre s0 0 (wf_init c d0 k1 k2 s0 h0)
   rw [Int.zero_add] at hw
   obtain ⟨h1, h2, h3, h4, h5⟩ := wait_until_slot c w _ _ hw hterm hd hc hlen
   have hw2 := wf_after c w _ _ hw
@@ -729,7 +732,7 @@ theorem concluded_switch (c : Cfg) : ∀ (pre : List In) (s : St) (t : Int), s.c
 set after the ticks `pre` of a run from the constructor, then there is exactly such a tick in `pre`: the agent was
 alive and not concluded, the tick was an execution slot, `repeat_kill_chain` is off, the stage after the tick is
 SUCCEEDED or FAILED and the tick returned do-nothing. -/
-theorem C19_tap1_concluded_run (c : Cfg) (d0 : Int) (s0 : St) (h0 : init c d0 = some s0) (pre : List In)
+theorem C19_tap1_concluded_run (c : Cfg) (d0 : Int) (k1 k2 : Nat) (s0 : St) (h0 : init c d0 k1 k2 = some s0) (pre : List In)
     (hc : (after c s0 0 pre).concluded = true) :
     ∃ pre1 i rest, pre = pre1 ++ i :: rest ∧
       (after c s0 0 pre1).concluded = false ∧ (after c s0 0 pre1).dead = false ∧
@@ -849,15 +852,15 @@ its execution slots; none lies before `start_step + d0` (nor before step 0); con
 (`k − 1` = the number of silent slots — failed trial, start tick, restart — in between), each slot gap in
 `[max 1 (frequency − variance), max 1 (frequency + variance)]`; in particular the agent never acts twice within less
 than `max 1 (frequency − variance)` steps. -/
-theorem C19_tap1_action_gaps (c : Cfg) (d0 : Int) (s0 : St) (ins : List In) (h0 : init c d0 = some s0)
+theorem C19_tap1_action_gaps (c : Cfg) (d0 : Int) (k1 k2 : Nat) (s0 : St) (ins : List In) (h0 : init c d0 k1 k2 = some s0)
     (hins : DrawsIn c ins) :
     (actTimes c s0 0 ins).Sublist (slotTimes c s0 0 ins) ∧
     (∀ x ∈ actTimes c s0 0 ins, c.startStep + d0 ≤ x ∧ 0 ≤ x) ∧
     MultiGaps (max 1 (c.frequency - c.variance)) (max 1 (c.frequency + c.variance)) (actTimes c s0 0 ins) ∧
     GapsAtLeast (max 1 (c.frequency - c.variance)) (actTimes c s0 0 ins) := by
   have hsub := actTimes_sublist c ins s0 0
-  obtain ⟨_, hg, hge, _⟩ := C19_tap1_slot_gaps c d0 s0 ins h0 hins
-  have hL := sched_law c (wf_init c d0 s0 h0).var
+  obtain ⟨_, hg, hge, _⟩ := C19_tap1_slot_gaps c d0 k1 k2 s0 ins h0 hins
+  have hL := sched_law c (wf_init c d0 k1 k2 s0 h0).var
   have hm := multiGaps_of_sublist _ _ _ _ hg hsub
   refine ⟨hsub, ?_, hm, multiGaps_atLeast _ _ (by omega) _ hm⟩
   intro x hx
@@ -868,7 +871,7 @@ theorem C19_tap1_action_gaps (c : Cfg) (d0 : Int) (s0 : St) (ins : List In) (h0 
 silent start tick, the agent acts at 6, 8, 11. -/
 example :
     let c : Cfg := { exCfg with startStep := 2, frequency := 3, variance := 1 }
-    ∃ s0, init c 0 = some s0 ∧
+    ∃ s0, init c 0 0 0 = some s0 ∧
       actTimes c s0 0 ((List.range 12).map fun j =>
         { exIn with d1 := if j = 2 then 1 else if j = 6 then -1 else 0 }) = [6, 8, 11] := by
   refine ⟨_, rfl, ?_⟩
@@ -896,7 +899,7 @@ namespace Tap3
 @[simp] theorem ct_manipulation (c : Cfg) (i : In) (s : St) : (manipulation c i s).curT = s.curT := by
   unfold manipulation; repeat' split
   all_goals simp
-@[simp] theorem ct_exploitAct (r : Nat) (s : St) : (exploitAct r s).curT = s.curT := by
+@[simp] theorem ct_exploitAct (a : Acl) (cr : Cred) (ip : Val) (s : St) : (exploitAct a cr ip s).curT = s.curT := by
   unfold exploitAct; split <;> simp
 @[simp] theorem ct_exploitFinish (s : St) : (exploitFinish s).curT = s.curT := by
   unfold exploitFinish; split <;> simp
@@ -956,7 +959,7 @@ theorem ct_preGuard (c : Cfg) (s : St) : (preGuardHandlers c s).curT = s.curT :=
 @[simp] theorem hs_manipulation (c : Cfg) (i : In) (s : St) : (manipulation c i s).hist = s.hist := by
   unfold manipulation; repeat' split
   all_goals simp
-@[simp] theorem hs_exploitAct (r : Nat) (s : St) : (exploitAct r s).hist = s.hist := by
+@[simp] theorem hs_exploitAct (a : Acl) (cr : Cred) (ip : Val) (s : St) : (exploitAct a cr ip s).hist = s.hist := by
   unfold exploitAct; split <;> simp
 @[simp] theorem hs_exploitFinish (s : St) : (exploitFinish s).hist = s.hist := by
   unfold exploitFinish; split <;> simp
@@ -1016,7 +1019,7 @@ theorem hs_preGuard (c : Cfg) (s : St) : (preGuardHandlers c s).hist = s.hist :=
 @[simp] theorem dd_manipulation (c : Cfg) (i : In) (s : St) : (manipulation c i s).dead = s.dead := by
   unfold manipulation; repeat' split
   all_goals simp
-@[simp] theorem dd_exploitAct (r : Nat) (s : St) : (exploitAct r s).dead = s.dead := by
+@[simp] theorem dd_exploitAct (a : Acl) (cr : Cred) (ip : Val) (s : St) : (exploitAct a cr ip s).dead = s.dead := by
   unfold exploitAct; split <;> simp
 @[simp] theorem dd_exploitFinish (s : St) : (exploitFinish s).dead = s.dead := by
   unfold exploitFinish; split <;> simp
@@ -1155,12 +1158,12 @@ structure WF (c : Cfg) (s : St) (t : Int) : Prop where
   curT_le : s.curT ≤ t
   curT_lt : s.curT < t ∨ s.cur = .notStarted
 
-theorem wf_init (c : Cfg) (d0 : Int) (s0 : St) (h0 : init c d0 = some s0) : WF c s0 0 := by
+theorem wf_init (c : Cfg) (d0 : Int) (k : Nat) (s0 : St) (h0 : init c d0 k = some s0) : WF c s0 0 := by
   unfold init at h0
   split at h0
   · rename_i hv
     cases h0
-    exact ⟨Or.inr rfl, (fun h => by cases h), by simpa [randintOk] using hv, Int.le_refl 0, Int.le_refl 0, rfl, Int.le_refl 0, Or.inr rfl⟩
+    exact ⟨Or.inr rfl, (fun h => by cases h), by simpa [randintOk] using hv.1, Int.le_refl 0, Int.le_refl 0, rfl, Int.le_refl 0, Or.inr rfl⟩
   · cases h0
 
 theorem wf_step (c : Cfg) (s : St) (t : Int) (i : In) (h : WF c s t) : WF c (step c s t i).1 (t + 1) := by
@@ -1322,7 +1325,7 @@ theorem end_tick (c : Cfg) (s : St) (t : Int) (i : In) (hw : WF c s t) (hterm : 
     · intro _ _ h'; cases h'
     · intro _ _ h'; cases h'
   · have hstep : step c s t i = ({ (getAction c s t i).1 with
-        hist := (getAction c s t i).1.hist ++ [{ kind := (getAction c s t i).2.kind, resp := i.resp }] },
+        hist := (getAction c s t i).1.hist ++ [{ act := (getAction c s t i).2, resp := i.resp }] },
         .act (getAction c s t i).2) := by
       unfold step
       rw [if_neg (by simp [hd]), if_neg herr]
@@ -1401,7 +1404,7 @@ sequence of schedule / trial / scan draws and simulator responses, every run len
    chain ended; and a live agent that finds the chain SUCCEEDED or FAILED never acts, waits for its next execution
    slot, and in that slot stops for good (repeat off: concluded, stage kept) or restarts (repeat on: NOT_STARTED or
    straight into RECONNAISSANCE, never concluded) — failure branches included (`EndTick`). -/
-theorem C19_tap3_kill_chain_run (c : Cfg) (d0 : Int) (s0 : St) (ins : List In) (h0 : init c d0 = some s0) :
+theorem C19_tap3_kill_chain_run (c : Cfg) (d0 : Int) (k : Nat) (s0 : St) (ins : List In) (h0 : init c d0 k = some s0) :
     Linked (Allowed c) s0.cur (run c s0 0 ins) ∧
     (c.repeatKillChain = false → ((s0 :: run c s0 0 ins).map (fun s => ord s.cur)).Pairwise (· ≤ ·)) ∧
     (∀ (pre : List In) (i : In) (post : List In), ins = pre ++ i :: post →
@@ -1409,12 +1412,12 @@ theorem C19_tap3_kill_chain_run (c : Cfg) (d0 : Int) (s0 : St) (ins : List In) (
         c.repeatKillChain = false ∧ (after c s0 0 pre).cur.terminal = true) ∧
       ((after c s0 0 pre).cur.terminal = true → (after c s0 0 pre).dead = false →
         EndTick c (after c s0 0 pre) pre.length i)) := by
-  have hL := (C19_tap3_stage_monotone c d0 s0 ins h0).1
+  have hL := (C19_tap3_stage_monotone c d0 k s0 ins h0).1
   refine ⟨hL, ?_, ?_⟩
   · intro hrep
     exact pairwise_of_chainLe _ (linked_chainLe c hrep _ _ hL)
   · intro pre i post _
-    have hw := wf_after c pre s0 0 (wf_init c d0 s0 h0)
+    have hw := wf_after c pre s0 0 (wf_init c d0 k s0 h0)
     rw [Int.zero_add] at hw
     refine ⟨?_, fun hterm hd => end_tick c _ _ i hw hterm hd⟩
     intro hc
@@ -1425,7 +1428,7 @@ theorem C19_tap3_kill_chain_run (c : Cfg) (d0 : Int) (s0 : St) (ins : List In) (
 execution slot finds the chain FAILED and restarts it straight into RECONNAISSANCE. -/
 example :
     let c : Cfg := { exCfg with repeatStages := false, pAccess := ⟨0, 1⟩ }
-    ∃ s0, init c 0 = some s0 ∧
+    ∃ s0, init c 0 0 = some s0 ∧
       (run c s0 0 (List.replicate 7 exIn)).map (·.cur)
         = [.notStarted, .reconnaissance, .planning, .access, .failed, .reconnaissance, .planning] := by
   refine ⟨_, rfl, ?_⟩; decide
@@ -1486,7 +1489,7 @@ theorem concluded_switch (c : Cfg) : ∀ (pre : List In) (s : St) (t : Int), s.c
       rw [e]; exact hb
 
 /-- **`actions_concluded` over a whole run (TAP003): written at the end of the chain and nowhere else.** -/
-theorem C19_tap3_concluded_run (c : Cfg) (d0 : Int) (s0 : St) (h0 : init c d0 = some s0) (pre : List In)
+theorem C19_tap3_concluded_run (c : Cfg) (d0 : Int) (k : Nat) (s0 : St) (h0 : init c d0 k = some s0) (pre : List In)
     (hc : (after c s0 0 pre).concluded = true) :
     ∃ pre1 i rest, pre = pre1 ++ i :: rest ∧
       (after c s0 0 pre1).concluded = false ∧ (after c s0 0 pre1).dead = false ∧
@@ -1512,7 +1515,7 @@ theorem C19_tap3_concluded_run (c : Cfg) (d0 : Int) (s0 : St) (h0 : init c d0 = 
     by_cases herr : (getAction c s t i).1.err = true
     · simp [step, hd, herr, ha] at hb
     · have hstep : step c s t i = ({ (getAction c s t i).1 with
-          hist := (getAction c s t i).1.hist ++ [{ kind := (getAction c s t i).2.kind, resp := i.resp }] },
+          hist := (getAction c s t i).1.hist ++ [{ act := (getAction c s t i).2, resp := i.resp }] },
           .act (getAction c s t i).2) := by
         unfold step
         rw [if_neg (by simp [hd]), if_neg herr]
@@ -1606,15 +1609,15 @@ its execution slots; none lies before `start_step + d0` (nor before step 0); con
 (`k − 1` = the number of silent slots — failed trial, start tick, restart — in between), each slot gap in
 `[max 1 (frequency − variance), max 1 (frequency + variance)]`; in particular the agent never acts twice within less
 than `max 1 (frequency − variance)` steps. -/
-theorem C19_tap3_action_gaps (c : Cfg) (d0 : Int) (s0 : St) (ins : List In) (h0 : init c d0 = some s0)
+theorem C19_tap3_action_gaps (c : Cfg) (d0 : Int) (k : Nat) (s0 : St) (ins : List In) (h0 : init c d0 k = some s0)
     (hins : DrawsIn c ins) :
     (actTimes c s0 0 ins).Sublist (slotTimes c s0 0 ins) ∧
     (∀ x ∈ actTimes c s0 0 ins, c.startStep + d0 ≤ x ∧ 0 ≤ x) ∧
     MultiGaps (max 1 (c.frequency - c.variance)) (max 1 (c.frequency + c.variance)) (actTimes c s0 0 ins) ∧
     GapsAtLeast (max 1 (c.frequency - c.variance)) (actTimes c s0 0 ins) := by
   have hsub := actTimes_sublist c ins s0 0
-  obtain ⟨_, hg, hge, _⟩ := C19_tap3_slot_gaps c d0 s0 ins h0 hins
-  have hL := sched_law c (wf_init c d0 s0 h0).var
+  obtain ⟨_, hg, hge, _⟩ := C19_tap3_slot_gaps c d0 k s0 ins h0 hins
+  have hL := sched_law c (wf_init c d0 k s0 h0).var
   have hm := multiGaps_of_sublist _ _ _ _ hg hsub
   refine ⟨hsub, ?_, hm, multiGaps_atLeast _ _ (by omega) _ hm⟩
   intro x hx
@@ -1624,13 +1627,13 @@ theorem C19_tap3_action_gaps (c : Cfg) (d0 : Int) (s0 : St) (ins : List In) (h0 
 /-- Non-vacuity: same schedule as for TAP001. -/
 example :
     let c : Cfg := { exCfg with startStep := 2, frequency := 3, variance := 1 }
-    ∃ s0, init c 0 = some s0 ∧
+    ∃ s0, init c 0 0 = some s0 ∧
       actTimes c s0 0 ((List.range 25).map fun j =>
         { exIn with d1 := if j = 2 then 1 else if j = 6 then -1 else 0 }) = [14, 17, 20, 23] := by
   refine ⟨_, rfl, ?_⟩
   decide
 
-theorem C19_tap3_ends_at_first_slot (c : Cfg) (d0 : Int) (s0 : St) (h0 : init c d0 = some s0) (pre w : List In) (i : In)
+theorem C19_tap3_ends_at_first_slot (c : Cfg) (d0 : Int) (k : Nat) (s0 : St) (h0 : init c d0 k = some s0) (pre w : List In) (i : In)
     (hterm : (after c s0 0 pre).cur.terminal = true) (hd : (after c s0 0 pre).dead = false)
     (hc : (after c s0 0 pre).concluded = false)
     (hlen : (w.length : Int) = max (pre.length : Int) (after c s0 0 pre).nextExec - pre.length) :
@@ -1641,7 +1644,7 @@ theorem C19_tap3_ends_at_first_slot (c : Cfg) (d0 : Int) (s0 : St) (h0 : init c 
      (c.repeatKillChain = true →
        (after c s0 0 (pre ++ w ++ [i])).concluded = false ∧
        ((after c s0 0 (pre ++ w ++ [i])).cur = .notStarted ∨ (after c s0 0 (pre ++ w ++ [i])).cur = .reconnaissance))) := by
-  have hw := wf_after c pre s0 0 (wf_init c d0 s0 h0)
+  have hw := wf_after c pre s0 0 (wf_init c d0 k s0 h0)
   rw [Int.zero_add] at hw
   have e1 : after c s0 0 (pre ++ w) = after c (after c s0 0 pre) pre.length w := by
     rw [after_append, Int.zero_add]
@@ -1686,7 +1689,7 @@ theorem hist_after (c : Cfg) : ∀ (pre : List In) (s : St) (t : Int), (after c 
       by_cases herr : (getAction c s t i).1.err = true
       · simp [step, hd, herr] at hd1
       · have hstep : step c s t i = ({ (getAction c s t i).1 with
-            hist := (getAction c s t i).1.hist ++ [{ kind := (getAction c s t i).2.kind, resp := i.resp }] },
+            hist := (getAction c s t i).1.hist ++ [{ act := (getAction c s t i).2, resp := i.resp }] },
             .act (getAction c s t i).2) := by
           unfold step
           rw [if_neg (by simp [hd]), if_neg herr]
@@ -1699,13 +1702,13 @@ theorem hist_after (c : Cfg) : ∀ (pre : List In) (s : St) (t : Int), (after c 
 stage of the chain to its successor, that tick was an execution slot, and the simulator's response `pre[current_timestep]`
 — the response the run gave to the action the agent returned in its previous execution slot — was a success
 (except in PLANNING, as coded). -/
-theorem C19_tap3_run_progress_only_after_success (c : Cfg) (d0 : Int) (s0 : St) (h0 : init c d0 = some s0)
+theorem C19_tap3_run_progress_only_after_success (c : Cfg) (d0 : Int) (k : Nat) (s0 : St) (h0 : init c d0 k = some s0)
     (pre : List In) (i : In) (hch : (after c s0 0 pre).cur.chain = true)
     (hadv : (after c s0 0 (pre ++ [i])).cur = (after c s0 0 pre).cur.succ) :
     executes (after c s0 0 pre) pre.length = true ∧
     ∃ j, pre[(after c s0 0 pre).curT.toNat]? = some j ∧
       (j.resp.ok = true ∨ (after c s0 0 pre).cur = .planning) := by
-  have hw := wf_after c pre s0 0 (wf_init c d0 s0 h0)
+  have hw := wf_after c pre s0 0 (wf_init c d0 k s0 h0)
   rw [Int.zero_add] at hw
   have e2 : after c s0 0 (pre ++ [i]) = (step c (after c s0 0 pre) pre.length i).1 := by
     rw [after_append]; simp [after]
@@ -1941,8 +1944,8 @@ theorem run_K (c : Cfg) (hp : c.pExploit.num ≤ 0) : ∀ (ins : List In) (s : S
 response sequence, an agent whose EXPLOIT probability is zero (or negative) never returns a
 `node-send-remote-command … acl add_rule`: it never gets past the entry trial of EXPLOIT (stage progress PENDING
 throughout). -/
-theorem C19_tap3_exploit_probability_zero_never_acl (c : Cfg) (d0 : Int) (s0 : St) (ins : List In)
-    (h0 : init c d0 = some s0) (hp : c.pExploit.num ≤ 0) :
+theorem C19_tap3_exploit_probability_zero_never_acl (c : Cfg) (d0 : Int) (k : Nat) (s0 : St) (ins : List In)
+    (h0 : init c d0 k = some s0) (hp : c.pExploit.num ≤ 0) :
     (∀ t a, (t, Out.act a) ∈ runOut c s0 0 ins → a.kind ≠ .remoteAcl) ∧
     (∀ s ∈ run c s0 0 ins, s.cur = .exploit → s.prog = .pending) := by
   have hk : K s0 := by
@@ -1954,7 +1957,7 @@ theorem C19_tap3_exploit_probability_zero_never_acl (c : Cfg) (d0 : Int) (s0 : S
   exact ⟨this.1, fun s hs => (this.2 s hs).1⟩
 
 /-- Non-vacuity / sensitivity: with probability 1 the agent of `exCfg` does issue ACL commands. -/
-example : ∃ s0, init exCfg 0 = some s0 ∧
+example : ∃ s0, init exCfg 0 0 = some s0 ∧
     ((runOut exCfg s0 0 (List.replicate 16 exIn)).any fun x =>
       match x.2 with | .act a => a.kind == .remoteAcl | .raised => false) = true := by
   refine ⟨_, rfl, ?_⟩; decide
